@@ -7,9 +7,7 @@ TECH = "static analysis: repository-specific rules over go/types + go/ssa (CFG d
 
 # property -> (text of the level claim, design section)
 CLAIMED = {}
-NOT_APPLICABLE = {
- "C19": "FIFO exactness of the ring/list/elastic buffers is a statement about cursor values along arbitrary operation sequences (modular arithmetic, growth, spill thresholds); no CFG/typestate/ownership rule can express it, and deciding it needs model-based exploration or a proof about arithmetic, which are other technique families. Its one structural consequence (buffers copy the bytes they are given) is decided as rule C02.6 under C02.",
-}
+NOT_APPLICABLE = {}
 
 def claim(pid, text):
     CLAIMED[pid] = text
